@@ -76,6 +76,14 @@ def check(rep, tier, seed):
             tcases.append("read %s" % text_spectrum(sh, vals[:i] + ["7"] + vals[i:]).hex()); tlabels.append(("insert token at %d" % i, False))
         tcases.append("read %s" % text_spectrum(sh, vals + ["1"]).hex()); tlabels.append(("append token", False))
         tcases.append("read %s" % text_spectrum(sh, []).hex()); tlabels.append(("no values", False))
+        # tokens that are no numbers must reject the file, not vanish: appended, inserted, in place of a value
+        for junk in ("NA", "2,5", "1e", "-", "x", "1.2.3", "--1", "0x10", "1_000", "\u00bd"):
+            i = rng.randrange(len(vals) + 1)
+            tcases.append("read %s" % text_spectrum(sh, vals[:i] + [junk] + vals[i:]).hex()); tlabels.append(("junk token %r inserted at %d" % (junk, i), False))
+            if vals:
+                j = rng.randrange(len(vals))
+                tcases.append("read %s" % text_spectrum(sh, vals[:j] + [junk] + vals[j + 1:]).hex()); tlabels.append(("junk token %r in place of value %d" % (junk, j), False))
+                tcases.append("read %s" % (text_spectrum(sh, vals) + junk.encode() + b"\n").hex()); tlabels.append(("junk token %r on a later line" % junk, False))
         for j in range(len(sh)):
             for delta in (1, -1, 5):
                 sh2 = list(sh); sh2[j] = max(0, sh2[j] + delta)
